@@ -1,4 +1,5 @@
 """C12 — Counter totals equal the number of occurrences seen so far (histories)."""
+import vlib
 from harness import fam_hash, fam_hash2
 TRUSTED = fam_hash.TRUSTED
 ASSUME = ["keys are unique (the constructor's precondition) and |key| <= 2**62"]
@@ -6,3 +7,7 @@ RULE = fam_hash2.RULE2 + " || " + "Counter histories; " + fam_hash.RULE
 def run(R, tier, rng):
     fam_hash2.run_family2(R, tier, rng, True)
     fam_hash.run_family(R, tier, rng, counter=True)
+
+
+def translator_tie():
+    return vlib.translator_tie(["hash"])
